@@ -119,6 +119,11 @@ Definition atom_store (d : definition) (fs : list frame) : definition :=
     end
   else d.
 
+(* a separator is not an operator directly inside round brackets *)
+Definition top_round (fs : list frame) : bool :=
+  match fs with FGroup BRound _ _ :: _ => true | _ => false end.
+Definition sep_blocked (d : definition) (fs : list frame) : bool := is_sep_def d && top_round fs.
+
 (* machine state: open frames and the operand just completed ([None]: an operand is
    expected).  [n] is the index the next node gets: every item but a closing bracket
    makes one node. *)
@@ -131,7 +136,8 @@ Definition spine_step (it : item) (n : nat) (st : spine_state) : option spine_st
       match ref_rank d with Some _ => Some (FPre n d k :: fs, None) | None => None end
   | IBinary d k, (fs, Some t) =>
       match ref_rank d with
-      | Some _ => let '(fs', t') := pop d fs t in Some (FBin n d k t' :: fs', None)
+      | Some _ => let '(fs', t') := pop d fs t in
+                  if sep_blocked d fs' then None else Some (FBin n d k t' :: fs', None)
       | None => None
       end
   | ISuffix d k, (fs, Some t) =>
@@ -183,7 +189,8 @@ Fixpoint opexpr_from (toks : list token_type) (after spaced : bool) (depth : lis
     | KValue => (negb after || spaced) && opexpr_from r true false depth
     | KPrefix => (negb after || spaced) && opexpr_from r false false depth
     | KOpen b => (negb after || spaced) && opexpr_from r false false (b :: depth)
-    | KBinary => after && opexpr_from r false false depth
+    | KBinary => after && negb (sep_tok t && match depth with BRound :: _ => true | _ => false end)
+                 && opexpr_from r false false depth
     | KSuffix => after && opexpr_from r true false depth
     | KClose b => after && match depth with b' :: d => bkind_eqb b' b && opexpr_from r true false d | [] => false end
     | KOther => false
